@@ -680,7 +680,11 @@ fn signatures(seq: &[Call], warm: &RunResult, res: &RunResult) -> Vec<(String, S
         // name the kinds of calls in the sequence that allocate / release buffers and objects
         let mut kinds: BTreeSet<String> = BTreeSet::new();
         for c in seq {
-            kinds.insert(format!("{c:?}").split('(').next().unwrap_or("").to_string());
+            // only the calls that create an object can be the origin of a leak
+            let name = format!("{c:?}").split('(').next().unwrap_or("").to_string();
+            if name.contains("Create") || name.contains("Deserialize") || name.contains("From") {
+                kinds.insert(name);
+            }
         }
         kinds.into_iter().collect::<Vec<_>>().join("+")
     };
